@@ -7,6 +7,7 @@
 import FordModel.Fixed
 import FordModel.FixedSpec
 import FordModel.FixedTree
+import FordModel.FixedProject
 import FordModel.Reader
 import FordModel.Lemmas.Fixed
 import FordModel.Generated.C14
@@ -462,5 +463,103 @@ theorem default_fixed_extensions_select_fixed_form :
 example : sourceForm ["F".toList, "f90".toList] ["f".toList, "F".toList] "F".toList = some true ∧
     sourceForm ["F".toList, "f90".toList] ["f".toList, "F".toList] "f90".toList = some false ∧
     sourceForm ["F".toList, "f90".toList] ["f".toList, "F".toList] "txt".toList = none := by decide
+
+/-! ### Round 6 - with which configuration a project's file and its INCLUDEd files are read -/
+
+/-- **A fixed-form file is read with the `fixed_length_limit` *setting*, preprocessed or not**
+    (round 6, class of seed m12).  Whatever the three extension lists and the setting are: a file
+    whose extension is a fixed-form extension is parsed, its reader is constructed with
+    `fixed = True` and `length_limit =` the setting - also when the extension is a preprocessed one
+    (`.F`, `.FOR` of a default project), the only thing that membership in `fpp_extensions`
+    decides is whether the preprocessor runs first.  So "text beyond column 72 ignored when the
+    length limit is on and kept when it is off" is decided by the setting alone. -/
+theorem fixed_file_reader_config (s : ProjSettings) (ext : Str) (h : ext ∈ s.fixedExtensions) :
+    fileCfg s ext = some { fixed := true, lim := s.lengthLimit, pp := s.fppExtensions.contains ext } := by
+  simp [fileCfg, (fixed_extension_selects_fixed_form s.extensions s.fixedExtensions ext).1 h]
+
+/-- **... for every file that is parsed at all the limit handed to the reader is the setting**
+    (free-form files carry it along unused; their INCLUDEd files inherit it). -/
+theorem reader_limit_is_the_setting (s : ProjSettings) (ext : Str) (c : ReaderCfg)
+    (h : fileCfg s ext = some c) : c.lim = s.lengthLimit ∧ c.pp = s.fppExtensions.contains ext := by
+  simp only [fileCfg] at h
+  split at h
+  · cases h
+  · cases h; exact ⟨rfl, rfl⟩
+
+/-- **`preprocess: false` switches the preprocessor off for every file and changes nothing else**:
+    same form, same limit. -/
+theorem preprocess_off_only_drops_the_preprocessor (exts fixedExts fpp : List Str) (lim : Bool) (ext : Str) :
+    fileCfg ⟨exts, fixedExts, effectiveFpp false fpp, lim⟩ ext =
+      (fileCfg ⟨exts, fixedExts, fpp, lim⟩ ext).map includeCfg := by
+  simp only [fileCfg, effectiveFpp]
+  cases sourceForm exts fixedExts ext <;> simp [includeCfg]
+
+/-- **INCLUDEd files inherit form and limit, never the preprocessor - at every depth.** -/
+theorem included_file_inherits_form_and_limit (c : ReaderCfg) :
+    (includeCfg c).fixed = c.fixed ∧ (includeCfg c).lim = c.lim ∧ (includeCfg c).pp = false ∧
+    includeCfg (includeCfg c) = includeCfg c := by
+  simp [includeCfg]
+
+/-- **The default project**: the lists regenerated from `ProjectSettings()` on every run; each
+    fixed-form extension, with preprocessing on or off, either limit setting, is read in fixed form
+    with the setting as its limit; and the situation is not empty - there are default fixed-form
+    extensions that are preprocessed. -/
+theorem default_fixed_extensions_keep_the_limit_setting :
+    (∀ ext ∈ Gen.fixedExtensions, ∀ preprocess lim : Bool,
+      fileCfg ⟨Gen.extensions, Gen.fixedExtensions, effectiveFpp preprocess Gen.fppExtensions, lim⟩ ext =
+        some { fixed := true, lim := lim, pp := (effectiveFpp preprocess Gen.fppExtensions).contains ext }) ∧
+    (∃ ext ∈ Gen.fixedExtensions, Gen.fppExtensions.contains ext = true) := by
+  constructor
+  · intro ext h preprocess lim
+    exact fixed_file_reader_config ⟨_, _, _, lim⟩ ext h
+  · decide
+
+/-- **The probed wiring is the modelled one.**  `Gen.readerCfgProbe` is regenerated on every run
+    by constructing the real `FortranSourceFile` for each of the 8 combinations (fixed, limit
+    setting, preprocessor given) on a file that INCLUDEs another one and recording the arguments
+    the real `FortranReader`s are constructed with: the main reader gets exactly (fixed, setting,
+    preprocessor), the nested reader `includeCfg` of that.  All 8 combinations are present. -/
+theorem reader_config_probe_matches_model :
+    (∀ row ∈ Gen.readerCfgProbe,
+      let c : ReaderCfg := { fixed := row.1.1, lim := row.1.2.1, pp := row.1.2.2 }
+      (⟨row.2.1.1, row.2.1.2.1, row.2.1.2.2⟩ : ReaderCfg) = c ∧
+      (⟨row.2.2.1, row.2.2.2.1, row.2.2.2.2⟩ : ReaderCfg) = includeCfg c) ∧
+    (∀ a b c : Bool, (Gen.readerCfgProbe.map (·.1)).contains (a, b, c) = true) := by
+  decide
+
+/-- **A fixed-form file of a project, preprocessed or not, reads as its free-form equivalent**
+    (round 6).  For every project (any extension lists, either limit setting, preprocessing on or
+    off), every file with a fixed-form extension, every preprocessor `pp` (any function) and every
+    tree of INCLUDEd files: when what reaches the converter - the file itself, or the
+    preprocessor's output for a preprocessed extension - is a well-formed fixed-form file `main`,
+    the items are those of the equivalent free-form tree rendered *with the limit setting*
+    (text beyond column 72 cut iff the setting is on), in the main file and in every INCLUDEd
+    file at every depth. -/
+theorem project_fixed_file_same_as_free_equivalent (ic : Include.Cfg) (v : Variant) (s : ProjSettings)
+    (ext : Str) (hext : ext ∈ s.fixedExtensions) (m : Marks) (pp : List Str → List Str)
+    (ps : List (Str × List Item)) (hwf : ∀ f ∈ ps, WF v f.2) (main : List Item) (hmain : WF v main)
+    (raw : List Str)
+    (hraw : (if s.fppExtensions.contains ext then pp raw else raw) = renderFixed main) (depth : Nat) :
+    ∃ c, fileCfg s ext = some c ∧
+      readProjectFile ic v c m pp (ps.map fun f => (f.1, renderFixed f.2)) depth raw =
+        readFreeTree ic m (ps.map fun f => (f.1, renderFree v s.lengthLimit f.2)) depth
+          (renderFree v s.lengthLimit main) := by
+  refine ⟨_, fixed_file_reader_config s ext hext, ?_⟩
+  rw [← include_tree_same_form_and_limit ic v s.lengthLimit m ps hwf main hmain depth]
+  simp only [readProjectFile, readFixedTree, readerView, includeCfg, hraw, List.map_map]
+  simp [Function.comp_def]
+
+/-- non-vacuity (the `.F` situation of a default project, limit on): the sequence field of a
+    preprocessed fixed-form file is not part of the statement; with the limit off it is -/
+example :
+    (fileCfg ⟨Gen.extensions, Gen.fixedExtensions, Gen.fppExtensions, true⟩ "F".toList).map
+      (fun c => (c, (readProjectFile ⟨true, true, true, true⟩ Variant.repaired c Marks.default id [] 2
+        [("      integer n".toList ++ List.replicate 57 ' ' ++ "FILL0020\n".toList)]).toOption))
+      = some (⟨true, true, true⟩, some ["integer n".toList]) ∧
+    (fileCfg ⟨Gen.extensions, Gen.fixedExtensions, Gen.fppExtensions, false⟩ "F".toList).map
+      (fun c => (c, (readProjectFile ⟨true, true, true, true⟩ Variant.repaired c Marks.default id [] 2
+        [("      integer n".toList ++ List.replicate 57 ' ' ++ "FILL0020\n".toList)]).toOption))
+      = some (⟨true, false, true⟩, some [("integer n".toList ++ List.replicate 57 ' ' ++ "FILL0020".toList)]) := by
+  decide
 
 end Ford.C14
